@@ -316,7 +316,7 @@ theorem term_main_step (ctx : TermCtx H W root) (sp : Pos) (rl : Bool) (fuel : N
                 rw [findD]
                 simp only [Bool.false_and, Bool.false_eq_true, if_false, hpv, hsplit, List.isEmpty_nil, Idx.truthy, Bool.not_true,
                   Bool.and_false, if_true, htext]
-                exact TermOut_err (by decide)
+                exact ⟨rfl, trivial⟩
         · -- ####### a name token #######
           have hne0 : name.isEmpty = false := isEmpty_false_of_ne hne
           simp only [hne0, Bool.false_eq_true, if_false] at hfuel
